@@ -184,6 +184,14 @@ func C08(cfg Cfg) int {
 								// The same message under another domain (and another key) elsewhere in the request.
 								cs[i].Data.Data = append([]byte{}, cs[r.Intn(i)].Data.Data...)
 							}
+							if n > 1 && r.Intn(9) == 0 {
+								// A marker: an entry that cannot be hashed (31-byte domain).  It must keep its own negative
+								// verdict, and its neighbours must still get signatures of their own entries.
+								cs[i].Data.Domain = cs[i].Data.Domain[:31]
+								markers[i] = true
+								descs[i] = fmt.Sprintf("generic key%d with a 31-byte domain", cs[i].Key.Index)
+								continue
+							}
 							roots[i] = cs[i].SigningRoot()
 							descs[i] = fmt.Sprintf("generic key%d dom=%x", cs[i].Key.Index, cs[i].Data.Domain[:4])
 						}
@@ -199,7 +207,7 @@ func C08(cfg Cfg) int {
 						if markers[i] {
 							run.Count("marker_entries", 1)
 							if res[i] == core.ResultSucceeded || len(sigs[i]) > 0 {
-								run.Violate(fmt.Sprintf("%s: entry %d is an attestation with target below source, yet it came back SUCCEEDED: the verdict at this position belongs to another request (%s)", cell, i, descs[i]), cell)
+								run.Violate(fmt.Sprintf("%s: entry %d can never be signed (target below source, or a domain that cannot be hashed), yet it came back SUCCEEDED: the verdict at this position belongs to another request (%s)", cell, i, descs[i]), cell)
 							}
 							continue
 						}
